@@ -185,6 +185,43 @@ def build(files, extra_cpp="", sanitize=False, exclude_headers=()):
         raise
 
 
+def compile_standalone(files, header):
+    """-> error text | None: does `header` compile when it is the only header a translation unit includes?"""
+    flags = BASE_FLAGS
+    h = hashlib.sha256()
+    for name in sorted(files):
+        h.update(name.encode())
+        h.update(mask(files[name]).encode())
+    h.update(("standalone|" + header + cc_version() + " ".join(flags)).encode())
+    d = os.path.join(_cache_dir(), "hdr-" + h.hexdigest()[:24])
+    res = os.path.join(d, "result.txt")
+    if os.path.exists(res):
+        t = open(res).read()
+        return t or None
+    pch = ensure_pch(flags)
+    tmp = tempfile.mkdtemp(prefix="hdr-", dir=_cache_dir())
+    try:
+        for name, text in files.items():
+            with open(os.path.join(tmp, name), "w") as f:
+                f.write(text)
+        with open(os.path.join(tmp, "tu.cpp"), "w") as f:
+            f.write('#include "%s"\nint main() { return 0; }\n' % header)
+        p = subprocess.run(["g++"] + flags + ["-fsyntax-only", "-I", pch, "-include", "pch.h", "-I", tmp, "-I", THIRD, os.path.join(tmp, "tu.cpp")], stdout=subprocess.PIPE, stderr=subprocess.PIPE, text=True)
+        err = "" if p.returncode == 0 else p.stderr[-3000:]
+        for fn in os.listdir(tmp):
+            os.remove(os.path.join(tmp, fn))
+        with open(os.path.join(tmp, "result.txt"), "w") as f:
+            f.write(err)
+        try:
+            os.rename(tmp, d)
+        except OSError:
+            shutil.rmtree(tmp, ignore_errors=True)
+        return err or None
+    except BaseException:
+        shutil.rmtree(tmp, ignore_errors=True)
+        raise
+
+
 def run_requests(exe, requests, reflection_bytes=None, timeout=600):
     """Send JSON requests; returns list of answers (dict) the same length; a crash yields
     {"crash": ...} for the unanswered tail."""
